@@ -6,7 +6,7 @@ from typing import Any, Dict, List, Optional, Set, Tuple
 
 from .. import linexpr as lx
 from ..ccfg import build_c_cfg, loop_heads
-from ..cfacts import CUnit, dispatcher_of, call_args, callee, int_value, is_assign, strip, walk
+from ..cfacts import CUnit, alias_binding, dispatcher_of, call_args, callee, int_value, is_assign, local_defs, strip, walk, wrapping_cursors
 from ..core import AnalysisError, Report
 from ..linexpr import Env, c_ir, to_lin
 from ..pycfg import Graph, Node, must_dataflow, path_to
@@ -175,33 +175,107 @@ def rule_route(rep: Report, cu: CUnit) -> None:
     rep.rule('C07.ROUTE', 'one routing predicate: run-time accessors use (flat && word < flat_count); API accessors '
              'add flat_seg_contains and are identical in get/set; inline flat lanes compare against flat_count and '
              'fall back to the routing helpers, never to a raw access', 9)
-    envm = Env({})
-    want_rt = '(m.flat and (word_address < m.flat_count))'
-    for fn in ('mem_read_word', 'mem_flip_bit', 'mem_write_bit'):
-        ifs = [n for n in cu.body(fn).get('inner', []) if n.get('kind') == 'IfStmt']
-        got = lx.canon(c_ir(ifs[0]['inner'][0], cu.src_of), envm) if ifs else None
-        then_flat = bool(ifs) and any(_mem_of(x) and _mem_of(x)[0] == 'flat' for x in walk(ifs[0]['inner'][1]))
-        rest_paged = any(callee(c) == 'mem_get_page' for st in cu.body(fn)['inner'][cu.body(fn)['inner'].index(ifs[0]) + 1:]
-                         for c in walk(st) if c.get('kind') == 'CallExpr') if ifs else False
-        acheck = any(callee(c) == 'access_check' for c in walk(cu.body(fn)) if c.get('kind') == 'CallExpr')
-        rep.check(got == want_rt and then_flat and rest_paged and acheck, 'C07.ROUTE', f'{fn}:predicate',
-                  f'routes by {got}; flat branch={then_flat}, paged fallback={rest_paged}, access_check={acheck}',
-                  cu.site(cu.func(fn), fn), expected=want_rt + ' then page + access_check')
-    api = {}
-    for fn in ('Memory_get_word', 'Memory_set_word'):
-        ifs = [n for n in cu.body(fn).get('inner', []) if n.get('kind') == 'IfStmt']
-        cands = [lx.canon(c_ir(i['inner'][0], cu.src_of), envm) for i in ifs]
-        cands = [c for c in cands if 'flat_count' in c]
-        api[fn] = cands[0] if cands else None
-    want_api = '(self.flat and (word_address < self.flat_count) and flat_seg_contains(self,word_address))'
-    rep.check(api['Memory_get_word'] == api['Memory_set_word'] == want_api, 'C07.ROUTE', 'Memory_get/set_word:predicate',
-              f'get: {api["Memory_get_word"]} ; set: {api["Memory_set_word"]}', cu.site(cu.func('Memory_get_word')),
-              expected=want_api)
-    # set_word masks the value in both branches
-    masks = [cu.src_of(n['inner'][1]) for n in walk(cu.body('Memory_set_word')) if is_assign(n)
-             and strip(n['inner'][0]).get('kind') == 'ArraySubscriptExpr']
-    rep.check(len(masks) == 2 and all(m == 'value & self->word_mask' for m in masks), 'C07.ROUTE', 'Memory_set_word:mask',
-              f'stores {masks}', cu.site(cu.func('Memory_set_word')), expected='value & word_mask in both branches')
+    # the accessors, found by what they do: every function with a raw access to the flat member array `X->flat[idx]` - except the
+    # window builder (the function holding the sentinel fill) and bulk loops indexed by their own counter (bounds: C11) - routes
+    # by ONE predicate P:  run-time side  P = X->flat && idx < X->flat_count ;  API side (not reachable from a run loop's callees)
+    # P = the same && flat_seg_contains(X, idx).  Decided on the function's CFG by a truth table over the dominating conditions:
+    # every raw flat access is reached only under P, every page lookup (mem_get_page) only under not-P.
+    cg = call_graph(cu)
+    runtime_side: Set[str] = set()
+    todo = [f for f in M.ROLES_C]
+    while todo:
+        f = todo.pop()
+        for c in cg.get(f, ()):
+            if c in cu.funcs and c not in runtime_side:
+                runtime_side.add(c)
+                todo.append(c)
+    builder = _locate_fill(cu)['fn']
+    n_rt = n_api = 0
+    for fn in cu.funcs:
+        if fn in M.ROLES_C or fn in (builder, 'mem_decide_storage'):
+            continue
+        accesses = []
+        for x in walk(cu.body(fn)):
+            mo = _mem_of(x)
+            if mo and mo[0] == 'flat':
+                accesses.append((x, mo[1]))
+        if not accesses:
+            continue
+        g = build_c_cfg(cu, fn)
+        IN = path_conditions(g, g.entry, c_assigned, c_mentions)
+
+        def facts_at(nid: int) -> List[Any]:
+            out = []
+            for cid, pol in (IN.get(nid) or frozenset()):
+                f_ = lx.bool_form(c_ir(g.nodes[cid].ast, cu.src_of))
+                out.append(f_ if pol == 'T' else ('not', f_))
+            return out
+
+        def node_of(x: Dict[str, Any]) -> Optional[int]:
+            for nd in g.nodes:
+                if isinstance(nd.ast, dict) and nd.kind in ('stmt', 'cond', 'return') and any(y is x for y in walk(nd.ast)):
+                    return nd.id
+            return None
+        api_side = fn not in runtime_side
+        problems: List[str] = []
+        shown = ''
+        judged = 0
+        for x, idx in accesses:
+            obj = lx.show(c_ir(strip(x['inner'][0])['inner'][0], cu.src_of))
+            idx_ir = c_ir(idx, cu.src_of)
+            in_loop = False
+            cur = cu.parent(x)
+            while isinstance(cur, dict):
+                if cur.get('kind') in ('ForStmt', 'WhileStmt', 'DoStmt'):
+                    in_loop = True
+                cur = cu.parent(cur)
+            if in_loop:
+                continue                      # a bulk loop (set_words): range-checked once before the loop, judged by C11.BOUNDS
+            nid = node_of(x)
+            if nid is None:
+                problems.append(f'access {cu.src_of(x)} not found in the CFG')
+                continue
+            judged += 1
+            goal_parts = [('atom', f'{obj}.flat'), ('atom', f'{lx.show(idx_ir)} < {obj}.flat_count')]
+            if api_side:
+                goal_parts.append(('atom', f'flat_seg_contains({obj},{lx.show(idx_ir)})'))
+            P = ('and', goal_parts)
+            shown = ' and '.join(a[1] for a in goal_parts)
+            if not lx.bf_implies(facts_at(nid), P):
+                problems.append(f'{cu.src_of(x)} at line {cu.line_of(x)} is not dominated by [{shown}]')
+            # the page lookups of the same function: only when P is false
+            for nd in g.nodes:
+                if isinstance(nd.ast, dict) and nd.kind in ('stmt', 'cond', 'return') and any(
+                        c.get('kind') == 'CallExpr' and callee(c) == 'mem_get_page' for c in walk(nd.ast)):
+                    if not lx.bf_implies(facts_at(nd.id), ('not', P)):
+                        problems.append(f'the page lookup at line {cu.line_of(nd.ast)} is reachable while [{shown}] holds')
+        if not judged:
+            continue
+        pages = any(callee(c) == 'mem_get_page' for c in walk(cu.body(fn)) if c.get('kind') == 'CallExpr')
+        acheck = api_side or any(callee(c) == 'access_check' for c in walk(cu.body(fn)) if c.get('kind') == 'CallExpr')
+        if not pages:
+            problems.append('no page fallback (mem_get_page) in this accessor')
+        if not acheck:
+            problems.append('the page fallback of a run-time accessor does not validate the address (access_check)')
+        n_rt += 0 if api_side else 1
+        n_api += 1 if api_side else 0
+        rep.check(not problems, 'C07.ROUTE', f'{fn}:predicate', f'{"API" if api_side else "run-time"} accessor routes by [{shown}]' if not problems
+                  else '; '.join(sorted(set(problems))[:3]), cu.site(cu.func(fn), fn), expected='flat access iff the routing predicate, else page' +
+                  ('' if api_side else ' + access_check'))
+    if n_rt < 3 or n_api < 1:
+        raise AnalysisError(f'C07.ROUTE: expected >= 3 run-time and >= 1 API accessor with raw flat accesses, found {n_rt} / {n_api}')
+    # set_word masks every value it stores (the implementation is found through the method table)
+    import re as _re
+    mt = cu.src_of(cu.vars['Memory_methods']) if 'Memory_methods' in cu.vars else ''
+    mm_ = _re.search(r'"set_word"\s*,\s*\(PyCFunction\)\s*(\w+)', mt)
+    if not mm_ or mm_.group(1) not in cu.funcs:
+        raise AnalysisError('C07.ROUTE: the set_word entry of the method table was not found')
+    setter = mm_.group(1)
+    masks = [lx.show(c_ir(n['inner'][1], cu.src_of)) for n in walk(cu.body(setter)) if is_assign(n)
+             and (strip(n['inner'][0]).get('kind') == 'ArraySubscriptExpr' or
+                  (strip(n['inner'][0]).get('kind') == 'UnaryOperator' and strip(n['inner'][0]).get('opcode') == '*'))]
+    rep.check(len(masks) >= 1 and all(m in ('(value&self.word_mask)', '(self.word_mask&value)') for m in masks), 'C07.ROUTE', 'Memory_set_word:mask',
+              f'stores {masks}', cu.site(cu.func(setter)), expected='value & word_mask at every store')
     # inline lanes: every comparison against flat_count guards a cold label whose block calls a routing helper
     helpers = {'mem_read_word', 'mem_flip_bit', 'mem_get_word_unaligned', 'mem_write_bit'}
     for fname, consts in (('run_flat_loop_impl', {}), ('run_paged_loop_impl', {'with_ring': 1})):
@@ -353,6 +427,15 @@ def _next_is_sentinel_test(cu: CUnit, g: Graph, nid: int, var: str, SENT: int, M
     first = lx.conjuncts(ir)[0]
     if first[0] == 'call' and lx.show(first[1]) == 'flat_is_garbage' and len(first[2]) == 2 and lx.show(first[2][1]) == var:
         return True, 'flat_is_garbage(value) test'
+    # any other unit-local predicate: its value, as one expression with the arguments substituted, must be the sentinel test
+    if first[0] == 'call' and lx.show(first[1]) in cu.funcs:
+        pname = lx.show(first[1])
+        val = lx.c_fn_value_ir(cu.body(pname), cu.src_of)
+        params = cu.params(pname)
+        if val is not None and len(params) == len(first[2]):
+            sh = _sentinel_shape(lx.ir_subst(val, dict(zip(params, first[2]))), cu)
+            if sh is not None:
+                return (sh == (var, 32, SENT, MAGIC)), f'{pname}(..) = inline test {sh}'
     return False, f'next test is {cu.src_of(nxt.ast)[:80]}'
 
 
@@ -405,15 +488,38 @@ def rule_copyin(rep: Report, cu: CUnit) -> None:
     rep.rule('C07.COPYIN', 'mem_decide_storage builds the flat window in this order: sentinel fill of the whole window, '
              'zero fill of every segment clamped to the window, copy of every allocated page intersected with every '
              'segment and clamped to the window (max of starts, min of ends, lo < hi)', 6)
-    body = cu.body('mem_decide_storage')
     fname = 'mem_decide_storage'
     order: List[Tuple[str, int]] = []
     fl = _locate_fill(cu)
+    # an extracted void helper (the page copy-in, the zero fill) reads like the code it was extracted from; the fill helper
+    # keeps its own treatment (_locate_fill binds its parameters)
+    cu.inline_void_helpers(fname, keep=[fl['fn']] if fl['fn'] != fname else [])
+    body = cu.body(fname)
+    fl = _locate_fill(cu)              # the same fill, as a node of the (possibly inlined) body
+    # the names that denote the window end: low_max_end, a field assigned once from it, a local defined once as one of those
+    window = {'low_max_end'}
+    for _ in range(3):
+        for n in walk(body):
+            tgt, val = None, None
+            if is_assign(n):
+                tgt, val = lx.show(c_ir(n['inner'][0], cu.src_of)), lx.show(c_ir(n['inner'][1], cu.src_of))
+            elif n.get('kind') == 'VarDecl' and n.get('inner'):
+                init = [c for c in n['inner'] if isinstance(c, dict) and c.get('kind')]
+                if init:
+                    tgt, val = n['name'], lx.show(c_ir(init[-1], cu.src_of))
+            if tgt and val in window and tgt not in window:
+                others = [x for x in walk(body) if is_assign(x) and lx.show(c_ir(x['inner'][0], cu.src_of)) == tgt]
+                if len(others) <= 1:
+                    window.add(tgt)
+    def w_(name: Optional[str]) -> Optional[str]:
+        return 'low_max_end' if name in window else name
     fill_at = fl['call'] if fl['call'] is not None else fl['assign']
-    order.append(('fill', fill_at['range']['begin'].get('offset', 0)))
-    for n in walk(body):
+    # program order = pre-order position in the (inlined) body, not the source offset
+    for pos, n in enumerate(walk(body)):
+        if n is fill_at:
+            order.append(('fill', pos))
         if n.get('kind') == 'CallExpr' and callee(n) in ('memset', 'memcpy'):
-            order.append((callee(n), n['range']['begin'].get('offset', 0)))
+            order.append((callee(n), pos))
     kinds = [k for k, _ in sorted(order, key=lambda t: t[1])]
     rep.check(kinds == ['fill', 'memset', 'memcpy'], 'C07.COPYIN', 'order', f'{kinds}', cu.site(cu.func(fname)),
               expected="['fill', 'memset', 'memcpy']")
@@ -425,7 +531,8 @@ def rule_copyin(rep: Report, cu: CUnit) -> None:
                 defs.setdefault(n['name'], []).append(c_ir(init[-1], cu.src_of))
     def mm(name: str) -> Optional[Tuple[str, str, str]]:
         vals = defs.get(name, [])
-        return _minmax(vals[-1]) if vals else None
+        r = _minmax(vals[-1]) if vals else None
+        return (r[0], *sorted((w_(r[1]) or '', w_(r[2]) or ''))) if r else None
     rep.check(mm('end_clamped') == ('min', 'low_max_end', 'm.segments[seg].end'), 'C07.COPYIN', 'zero-fill clamp',
               f'end_clamped = {mm("end_clamped")}', cu.site(cu.func(fname)), expected='min(segment end, window end)')
     rep.check(mm('lo') == ('max', 'm.segments[seg].start', 'page_start'), 'C07.COPYIN', 'copy lo',
@@ -443,9 +550,18 @@ def rule_copyin(rep: Report, cu: CUnit) -> None:
             need = 'start < end_clamped:T' if callee(c) == 'memset' else 'lo < hi:T'
             rep.check(need in conds, 'C07.COPYIN', f'{callee(c)}:guard', f'guards {sorted(conds)[:6]}', cu.site(c, fname),
                       expected=need)
-    clamp = any(n.get('kind') == 'IfStmt' and cu.src_of(n['inner'][0]) == 'hi > low_max_end'
-                and any(is_assign(x) and cu.src_of(x) == 'hi = low_max_end' for x in walk(n['inner'][1]))
-                for n in walk(body))
+    def _clamp_if(n: Dict[str, Any]) -> bool:
+        if n.get('kind') != 'IfStmt':
+            return False
+        t = c_ir(n['inner'][0], cu.src_of)
+        if not (t[0] == 'cmp' and len(t[1]) == 1):
+            return False
+        a, b, op = lx.show(t[2][0]), lx.show(t[2][1]), t[1][0]
+        if not ((op in ('>', '>=') and a == 'hi' and w_(b) == 'low_max_end') or (op in ('<', '<=') and b == 'hi' and w_(a) == 'low_max_end')):
+            return False
+        return any(is_assign(x) and lx.show(c_ir(x['inner'][0], cu.src_of)) == 'hi' and w_(lx.show(c_ir(x['inner'][1], cu.src_of))) == 'low_max_end'
+                   for x in walk(n['inner'][1]))
+    clamp = any(_clamp_if(n) for n in walk(body))
     rep.check(clamp, 'C07.COPYIN', 'copy hi window clamp', 'if (hi > low_max_end) hi = low_max_end', cu.site(cu.func(fname)))
     # every build loop covers its whole range: `for (v = 0; v < BOUND; v++)`, no early exit, the only skip is an
     # unallocated slot.  (a `break` after the first copied intersection loses the second segment sharing a page.)
@@ -484,6 +600,7 @@ def rule_copyin(rep: Report, cu: CUnit) -> None:
             bound_txt = lx.show(ci[2][1]) if ok_shape else f'?{cu.src_of(lp)[:50]}'
             if kind == 'fill':
                 bound_txt = fl['bind'].get(bound_txt, bound_txt)          # a helper's parameter reads as the argument passed
+                bound_txt = w_(bound_txt) or bound_txt
             got.append(bound_txt)
             exits = []
             for x in walk(lbody) if isinstance(lbody, dict) else []:
@@ -586,21 +703,45 @@ def rule_record(rep: Report, cu: CUnit, repo: Repo) -> None:
     if len(emitters) != 1:
         raise AnalysisError(f'C07.RECORD: expected exactly one function that reads last_ops_ring into the result, found {emitters}')
     emit = emitters[0]
+    # single-definition locals that merely rename a parameter (ring_length = (uint64_t)last_ops_length) read as what they rename;
+    # a local counts as defined by its declaration initialiser or by its only plain assignment
+    al = alias_binding(cu, emit)
     defs = {}
-    for n in walk(cu.body(emit)):
-        if n.get('kind') == 'VarDecl' and n.get('inner'):
-            init = [c for c in n['inner'] if isinstance(c, dict) and c.get('kind')]
-            if init:
-                defs[n['name']] = lx.canon(c_ir(init[-1], cu.src_of), env)
-    rep.check(defs.get('total') == '((ring_writes < last_ops_length)?ring_writes:last_ops_length)', 'C07.RECORD', 'emit:total',
-              str(defs.get('total')), cu.site(cu.func(emit)), expected='min(writes, length)')
-    rep.check(defs.get('start') == '(last_ops_length + ring_pos - total)%(last_ops_length)'
-              and defs.get('ring_pos') == '(ring_writes)%(last_ops_length)', 'C07.RECORD', 'emit:start',
-              f'start={defs.get("start")} ring_pos={defs.get("ring_pos")}', cu.site(cu.func(emit)),
-              expected='(pos + length - total) % length')
-    elem = [lx.canon(c_ir(x['inner'][1], cu.src_of), env) for x in walk(cu.body(emit))
-            if x.get('kind') == 'ArraySubscriptExpr' and cu.src_of(x['inner'][0]) == 'last_ops_ring']
-    rep.check(elem == ['(i + start)%(last_ops_length)'], 'C07.RECORD', 'emit:order', str(elem),
+    for name_, vals in local_defs(cu, emit).items():
+        if len(vals) == 1 and vals[0] is not None:
+            defs[name_] = lx.canon(lx.ir_subst(c_ir(vals[0], cu.src_of), al), env)
+    cursors = wrapping_cursors(cu, emit)
+    for cname, cur in cursors.items():
+        defs[cname] = lx.canon(cur['init'], env)          # the cursor's value in iteration 0
+    # roles by what the locals are, not by their names: total = min(writes, length); start = (pos + length - total) % length
+    total_names = [k for k, v in defs.items() if v == '((ring_writes < last_ops_length)?ring_writes:last_ops_length)']
+    rep.check(len(total_names) == 1, 'C07.RECORD', 'emit:total', f'{total_names or defs}', cu.site(cu.func(emit)), expected='min(writes, length)')
+    tn = total_names[0] if total_names else 'total'
+    pos_names = [k for k, v in defs.items() if v == '(ring_writes)%(last_ops_length)']
+    pn = pos_names[0] if pos_names else 'ring_pos'
+    start_names = [k for k, v in defs.items() if v == f'(last_ops_length + {pn} - {tn})%(last_ops_length)']
+    rep.check(len(start_names) == 1 and len(pos_names) == 1, 'C07.RECORD', 'emit:start',
+              f'start={start_names} ring_pos={pos_names}', cu.site(cu.func(emit)), expected='(pos + length - total) % length')
+    sn = start_names[0] if start_names else 'start'
+    elem = []
+    for x in walk(cu.body(emit)):
+        if x.get('kind') == 'ArraySubscriptExpr' and cu.src_of(x['inner'][0]) == 'last_ops_ring':
+            ir = lx.ir_subst(c_ir(x['inner'][1], cu.src_of), al)
+            if ir[0] == 'sym' and ir[1] in cursors:
+                # a wrapping cursor read in iteration i of its loop (i = 0, 1, ..) is (its initial value + i) % modulus
+                lp = cursors[ir[1]]['loop']
+                counter = None
+                if lp.get('kind') == 'ForStmt' and isinstance(lp['inner'][0], dict):
+                    i0 = [y for y in walk(lp['inner'][0]) if (is_assign(y) and int_value(strip(y['inner'][1])) == 0) or
+                          (y.get('kind') == 'VarDecl' and y.get('inner') and int_value(strip(y['inner'][-1])) == 0)]
+                    if i0:
+                        counter = i0[0]['name'] if i0[0].get('kind') == 'VarDecl' else cu.src_of(i0[0]['inner'][0])
+                order_ = [id(y) for y in walk(lp)]
+                before_inc = id(x) in order_ and id(cursors[ir[1]]['inc']) in order_ and order_.index(id(x)) < order_.index(id(cursors[ir[1]]['inc']))
+                ir = ('bin', '%', ('bin', '+', ('sym', ir[1]), ('sym', (counter or '?') if before_inc else f'{counter}+1')), cursors[ir[1]]['mod'])
+            elem.append(lx.canon(ir, env))
+    # the loop runs i = 0 .. total-1 in ascending order
+    rep.check(elem in ([f'(i + {sn})%(last_ops_length)'], [f'({sn} + i)%(last_ops_length)']), 'C07.RECORD', 'emit:order', str(elem),
               cu.site(cu.func(emit)), expected='ring[(start + i) % length] for i ascending')
     # _run_native: the deque is extended once per exit path, in order: from the returned list on the normal path, and (if the
     # exception path reports the list at all) from the engine's kept copy inside a handler that re-raises
